@@ -494,8 +494,38 @@ func TestCheck(t *testing.T) {
 			e.Nontrivial(k)
 		}
 	}
+	// runs in which the consumer does not read to the end (partial_test.go): Stop while a Read is in flight, early Close
+	// with a failing source Close followed by a second Close
+	nPartial := 0
+	for k := 1; k <= ev.Pick(4, 8); k++ {
+		for _, bf := range []int{1, k, k + 2} {
+			for rep := 0; rep < ev.Pick(3, 10); rep++ {
+				teeStopRace(b, k, bf)
+				cases = append(cases, caseSpec{Kind: "tee", Lens: []int{k}, Closable: []bool{true}, WCloser: true, Buf: bf, Path: "stop-during-read"})
+				nPartial++
+			}
+		}
+	}
+	for _, lens := range [][]int{{2, 2}, {1, 2, 3}, {3, 0, 2}, {2, 2, 2, 2}} {
+		total := 0
+		for _, l := range lens {
+			total += l
+		}
+		for take := 0; take < total; take++ {
+			for failAt := 0; failAt <= len(lens); failAt++ {
+				multiEarlyClose(b, lens, take, failAt)
+				cl := make([]bool, len(lens))
+				for i := range cl {
+					cl[i] = true
+				}
+				cases = append(cases, caseSpec{Kind: "multi", Lens: lens, Closable: cl, Buf: 1, N: failAt, Path: "early-close"})
+				nPartial++
+			}
+		}
+	}
+	e.Set("partial_consumption_runs", int64(nPartial))
 	e.Set("evaluations", int64(len(cases)))
-	e.Set("rule", "every case = (wrapper kind, limit N, source lengths, composition of each source into read chunks, reader style [EOF with data / EOF alone / zero-length read position / mid-stream error position], closable flags, consumer buffer size, consumption path read|readall|copy); enumerated exhaustively for small lengths, boundary-placed and seeded-random above; non-trivial = some source split in >=2 chunks or returning data with EOF or a zero read or an error, or a limit case with len in {N, N+1}; distinct by the full case tuple")
+	e.Set("rule", "every case = (wrapper kind, limit N, source lengths, composition of each source into read chunks, reader style [EOF with data / EOF alone / zero-length read position / mid-stream error position], closable flags, consumer buffer size, consumption path read|readall|copy); enumerated exhaustively for small lengths, boundary-placed and seeded-random above; non-trivial = some source split in >=2 chunks or returning data with EOF or a zero read or an error, or a limit case with len in {N, N+1}; distinct by the full case tuple; plus partial-consumption runs: tee.Stop() while a Read is in flight, MultiReaderCloser closed early (every prefix length) with the Close of source i failing, then closed again")
 	for _, i := range []int{0, len(cases) / 3, len(cases) / 2, len(cases) - 1} {
 		e.Sample(tv.M{"case": cases[i], "trace": b.TraceStrings(i)})
 	}
